@@ -217,7 +217,7 @@ func definingEquations(t *Term, isFresh func(string) bool, out map[string]*Term)
 		}
 		for _, pr := range [][2]*Term{{c.Args[0], c.Args[1]}, {c.Args[1], c.Args[0]}} {
 			v, rhs := pr[0], pr[1]
-			if v.Op == "var" && (v.Sort == SInt || v.Sort == SBool) && isFresh(v.Name) && !mentions(rhs, v.Name) {
+			if v.Op == "var" && (v.Sort == SInt || v.Sort == SBool) && isFresh(v.Name) && !strings.HasPrefix(v.Name, "let!") && !mentions(rhs, v.Name) {
 				if _, dup := out[v.Name]; !dup {
 					ok := true
 					for other := range out {
